@@ -14,24 +14,23 @@
 package c12
 
 import (
-	"context"
 	"errors"
 	"fmt"
 	"os"
 	"path/filepath"
 	"regexp"
+	"sort"
 	"strings"
 	"testing"
 
-	"github.com/prometheus/common/model"
 	promParser "github.com/prometheus/prometheus/promql/parser"
+	"github.com/prometheus/prometheus/storage"
 	"pgregory.net/rapid"
 
 	"github.com/cloudflare/pint/internal/checks"
-	"github.com/cloudflare/pint/internal/discovery"
-	"github.com/cloudflare/pint/internal/parser"
 	"github.com/cloudflare/pint/internal/parser/utils"
 	"github.com/cloudflare/pint/verifharness/pq"
+	"github.com/cloudflare/pint/verifharness/pq/pintrun"
 	"github.com/cloudflare/pint/verifharness/vstat"
 )
 
@@ -79,7 +78,7 @@ const (
 	staticDeadReason = "which is not possible, so it will never return anything"
 )
 
-var joinDeadRe = regexp.MustCompile("^The (left|right) hand side will never be matched because it doesn't have the `([^`]+)` label (from `on\\(\\.\\.\\.\\)`|while the left hand side will)")
+var joinDeadRe = regexp.MustCompile("^The (left|right) hand side will never be matched because it doesn't have the `([^`]*)` label (from `on\\(\\.\\.\\.\\)`|while the left hand side will)")
 
 func reasonClass(r string) string {
 	switch {
@@ -140,28 +139,9 @@ func binSig(b *promParser.BinaryExpr) string {
 	return s
 }
 
-// checkCheck cross-checks that ImpossibleCheck reports exactly the dead sources (harness sanity).
-func impossibleProblems(expr string) (int, error) {
-	yaml := "groups:\n- name: g\n  rules:\n  - record: r\n    expr: '" + strings.ReplaceAll(expr, "'", "''") + "'\n"
-	f := parser.NewParser(false, parser.PrometheusSchema, model.UTF8Validation).Parse(strings.NewReader(yaml))
-	if f.Error.Err != nil || len(f.Groups) != 1 || len(f.Groups[0].Rules) != 1 {
-		return 0, fmt.Errorf("synthetic rule did not parse: %v", f.Error.Err)
-	}
-	r := f.Groups[0].Rules[0]
-	if r.Error.Err != nil || r.RecordingRule == nil || r.RecordingRule.Expr.SyntaxError != nil {
-		return 0, fmt.Errorf("synthetic rule is not a valid recording rule: %v", r.Error.Err)
-	}
-	n := 0
-	for _, p := range checks.NewImpossibleCheck().Check(context.Background(), discovery.Entry{Group: &f.Groups[0], Rule: r, State: discovery.Noop}, nil) {
-		if p.Summary == "dead code in query" {
-			n++
-		}
-	}
-	return n, nil
-}
-
 // failure is one dead-code report the engine contradicts.
 type failure struct {
+	kind  string                 // "" (engine contradicts a report) | "idempotence"
 	b     *promParser.BinaryExpr // the operation (nil for the constfold class)
 	label string                 // the label pint's reason names
 	isOn  bool                   // reason is about on(...) (else: "guaranteed" label of the other side)
@@ -179,53 +159,161 @@ func run(c Case) (info, error) {
 }
 
 // runAll returns the contradicted reports (fails) or a harness/precondition error.
-func runAll(c Case) (inf info, fails []failure, err error) {
-	node, perr := pq.Parse(c.Expr)
-	if perr != nil {
-		return inf, nil, errSkip
+// view is pint's verdict on one expression as seen through one way of analysing it.
+type view struct {
+	name  string // "fresh" | "alert-pipeline" | "record-pipeline"
+	node  promParser.Node
+	deads []deadReport
+	sig   string
+}
+
+type analysis struct {
+	views    []view
+	preFails []failure // database independent failures: the analysis mutates / depends on who analysed first
+	skip     bool
+	panicVal any
+	err      error
+}
+
+var (
+	lastExpr     string
+	lastAnalysis *analysis
+)
+
+func reasonsOf(deads []deadReport) []string {
+	out := make([]string, 0, len(deads))
+	for _, d := range deads {
+		out = append(out, d.d.IsDeadReason)
 	}
-	srcs, pv := labelsSource(c.Expr, node)
+	sort.Strings(out)
+	return out
+}
+
+// analyse derives pint's dead-code verdicts on expr (1) from one utils.LabelsSource call on a freshly parsed
+// query and (2, 3) the way `pint lint` does: the rule file is parsed ONCE and the whole default check list runs on
+// that one entry, as alerting and as recording rule; the promql/impossible problems of that run are the verdicts
+// (the sources behind them are read from the same shared query afterwards).
+func analyse(expr string) *analysis {
+	if lastAnalysis != nil && lastExpr == expr {
+		return lastAnalysis
+	}
+	a := &analysis{}
+	lastExpr, lastAnalysis = expr, a
+	node, perr := pq.Parse(expr)
+	if perr != nil {
+		a.skip = true
+		return a
+	}
+	if msg := pintrun.Idempotent(expr); msg != "" {
+		a.preFails = append(a.preFails, failure{kind: "idempotence", err: errors.New(msg)})
+	}
+	srcs, pv := labelsSource(expr, node)
 	if pv != nil {
-		inf.panicValue = pv
-		return inf, nil, errSkip
+		a.skip, a.panicVal = true, pv
+		return a
 	}
 	deads, _ := collect(srcs)
-	inf.dead = len(deads)
-	if len(deads) == 0 {
-		return inf, nil, nil
+	a.views = append(a.views, view{name: "fresh", node: node, deads: deads, sig: pintrun.Signature(srcs)})
+	for _, kind := range []string{"alert", "record"} {
+		res, rerr := pintrun.Run(kind, expr, "{{ $labels.a }} {{ $value }}")
+		if rerr != nil {
+			a.err = fmt.Errorf("harness: %v (expr `%s`)", rerr, expr)
+			return a
+		}
+		var reported []string
+		for _, p := range res.By(checks.ImpossibleCheckName) {
+			if p.Summary == "dead code in query" && len(p.Diagnostics) > 0 {
+				reported = append(reported, p.Diagnostics[0].Message)
+			}
+		}
+		sort.Strings(reported)
+		psrcs, ppv := labelsSource(expr, res.Node())
+		if ppv != nil {
+			a.skip, a.panicVal = true, ppv
+			return a
+		}
+		pdeads, _ := collect(psrcs)
+		name := kind + "-pipeline"
+		if got := reasonsOf(pdeads); strings.Join(got, "\x00") != strings.Join(reported, "\x00") {
+			a.preFails = append(a.preFails, failure{kind: "idempotence", err: fmt.Errorf(
+				"promql/impossible, run in pint's check list on the %s rule `%s`, reported %q; analysing the same parsed query again gives %q (checks run: %s)",
+				kind, expr, reported, got, strings.Join(res.Checks, ", "))})
+		}
+		if after := res.Node().String(); after != node.String() {
+			a.preFails = append(a.preFails, failure{kind: "idempotence", err: fmt.Errorf(
+				"running pint's check list on the %s rule changed the parsed query all checks share: `%s` became `%s`", kind, node.String(), after)})
+		}
+		a.views = append(a.views, view{name: name, node: res.Node(), deads: pdeads, sig: pintrun.Signature(psrcs)})
 	}
-	if n, perr := impossibleProblems(c.Expr); perr != nil {
-		return inf, nil, fmt.Errorf("harness: %v (expr `%s`)", perr, c.Expr)
-	} else if n != len(deads) {
-		return inf, nil, fmt.Errorf("harness: ImpossibleCheck reports %d dead code problems, WalkSources finds %d dead sources (expr `%s`)", n, len(deads), c.Expr)
+	return a
+}
+
+func runAll(c Case) (inf info, fails []failure, err error) {
+	a := analyse(c.Expr)
+	if a.skip {
+		inf.panicValue = a.panicVal
+		return inf, nil, errSkip
 	}
-	q := c.DB.Queryable()
-	whole, wholeErr := pq.EvalQ(q, c.Expr, pq.T0)
-	if wholeErr != nil {
-		inf.engineErr = true
+	if a.err != nil {
+		return inf, nil, a.err
 	}
+	fails = append(fails, a.preFails...)
+	var q storage.Queryable
+	var whole pq.Result
+	var wholeErr error
+	seen := map[string]bool{}
+	for _, v := range a.views {
+		if seen[v.sig] || len(v.deads) == 0 {
+			continue
+		}
+		seen[v.sig] = true
+		if q == nil {
+			q = c.DB.Queryable()
+			whole, wholeErr = pq.EvalQ(q, c.Expr, pq.T0)
+			if wholeErr != nil {
+				inf.engineErr = true
+			}
+		}
+		first := inf.dead == 0
+		if len(v.deads) > inf.dead {
+			inf.dead = len(v.deads)
+		}
+		f, jerr := judge(c, v, first, &inf, q, whole, wholeErr)
+		if jerr != nil {
+			return inf, nil, jerr
+		}
+		fails = append(fails, f...)
+	}
+	return inf, fails, nil
+}
+
+// judge confronts the dead-code verdicts of one view with the engine.
+func judge(c Case, v view, first bool, infp *info, q storage.Queryable, whole pq.Result, wholeErr error) (fails []failure, err error) {
+	inf := *infp
+	defer func() { *infp = inf }()
+	node, deads := v.node, v.deads
 	for i, dr := range deads {
 		rc := reasonClass(dr.d.IsDeadReason)
-		if i == 0 {
+		if i == 0 && first {
 			inf.sig = rc
 		}
 		describe := func() string {
-			return fmt.Sprintf("pint: dead code in `%s`: %s\ndatabase:\n%s", c.Expr, dr.d.IsDeadReason, c.DB.String())
+			return fmt.Sprintf("pint (%s): dead code in `%s`: %s\ndatabase:\n%s", v.name, c.Expr, dr.d.IsDeadReason, c.DB.String())
 		}
 		switch {
 		case strings.HasPrefix(rc, "join-"):
 			if dr.owner == nil || dr.owner.Selector == nil || dr.d.Selector == nil {
-				return inf, nil, fmt.Errorf("harness: cannot locate the operation of a dead source (owner or selector missing)\n%s", describe())
+				return nil, fmt.Errorf("harness: cannot locate the operation of a dead source (owner or selector missing)\n%s", describe())
 			}
 			lca := pq.LCA(node, dr.owner.Selector, dr.d.Selector)
 			b, ok := lca.(*promParser.BinaryExpr)
 			if !ok || b.VectorMatching == nil {
-				return inf, nil, fmt.Errorf("harness: the common ancestor of the two sides is not a vector matching operation (%T)\n%s", lca, describe())
+				return nil, fmt.Errorf("harness: the common ancestor of the two sides is not a vector matching operation (%T)\n%s", lca, describe())
 			}
 			if b.Op == promParser.LOR {
-				return inf, nil, fmt.Errorf("harness: join-dead report on an `or` operation\n%s", describe())
+				return nil, fmt.Errorf("harness: join-dead report on an `or` operation\n%s", describe())
 			}
-			if i == 0 {
+			if i == 0 && first {
 				inf.sig = binSig(b) + " " + rc
 			}
 			m := joinDeadRe.FindStringSubmatch(dr.d.IsDeadReason)
@@ -260,7 +348,7 @@ func runAll(c Case) (inf info, fails []failure, err error) {
 			if wholeErr == nil && !pq.HasTieBreak(node) {
 				mod, merr := pq.WithDeadMatcher(c.Expr, dr.d.Selector)
 				if merr != nil {
-					return inf, nil, fmt.Errorf("harness: %v", merr)
+					return nil, fmt.Errorf("harness: %v", merr)
 				}
 				rm, em := pq.EvalQ(q, mod, pq.T0)
 				if em == nil && !rm.Equal(whole) {
@@ -272,7 +360,7 @@ func runAll(c Case) (inf info, fails []failure, err error) {
 			// "never returns anything", literally: the query this source stands for returns no series.
 			// Only generated at top level (constfold kind), where the operation is the whole expression.
 			if c.Kind != "constfold" {
-				return inf, nil, fmt.Errorf("harness: constant folding report outside the constfold class\n%s", describe())
+				return nil, fmt.Errorf("harness: constant folding report outside the constfold class\n%s", describe())
 			}
 			inf.nontrivial = true
 			if wholeErr == nil && (whole.Kind == "vector" || whole.Kind == "matrix") && !whole.Empty() {
@@ -280,10 +368,10 @@ func runAll(c Case) (inf info, fails []failure, err error) {
 			}
 		default:
 			// or-lhs-always / unless-always need a constant, which the fragment does not contain
-			return inf, nil, fmt.Errorf("harness: unexpected dead code reason class %q in the fragment\n%s", rc, describe())
+			return nil, fmt.Errorf("harness: unexpected dead code reason class %q in the fragment\n%s", rc, describe())
 		}
 	}
-	return inf, fails, nil
+	return fails, nil
 }
 
 // known-finding classes -------------------------------------------------------
@@ -331,6 +419,9 @@ func knownClass(c Case) string {
 }
 
 func failureClass(c Case, f failure) string {
+	if f.kind != "" {
+		return ""
+	}
 	if f.b == nil {
 		if c.Kind == "constfold" && strings.Contains(c.Expr, " bool ") {
 			return "const-cmp-bool"
